@@ -212,6 +212,14 @@ func stmt(s ast.Stmt) string {
 				return "SAssign " + q(src(l))
 			}
 		}
+		// reads of a field-held map (x.f[k]) are kept: they matter for the lock discipline
+		for _, r := range x.Rhs {
+			if ix, ok := r.(*ast.IndexExpr); ok {
+				if _, ok := ix.X.(*ast.SelectorExpr); ok {
+					return "SRead " + q(src(ix))
+				}
+			}
+		}
 		return ""
 	case *ast.SelectStmt:
 		cs := []string{}
@@ -266,6 +274,9 @@ var want = []string{
 	"upstreamProcsForProc", "collectUpstreamProcs", "Sink.Run", "Fail", "Failf", "CheckWithMsg",
 	"FileIP.Write", "FileIP.AddTag", "FileIP.AuditInfo", "FileIP.SetAuditInfo", "FileIP.WriteAuditLogToFile", "FileIP.CreateFifo",
 	"NewTask", "NewFileIP",
+	"FileIP.Tags", "FileIP.Tag", "FileIP.AddTags", "FileIP.auditInfoSnapshot", "FileIP.Exists", "FileIP.FifoFileExists", "UnmarshalAuditInfoJSONFile",
+	"components.MapToTags.Run", "components.StreamToSubStream.Run", "components.FileCombinator.Run", "components.ParamCombinator.Run",
+	"components.IPSelectorSync.Run", "components.Concatenator.Run", "components.FileSplitter.Run", "components.FileSource.Run", "components.ParamSource.Run",
 }
 
 func ident(name string) string {
@@ -284,6 +295,24 @@ func main() {
 	}
 	funcs := map[string]string{}
 	consts := map[string]string{}
+	if cp, err := parser.ParseDir(fset, filepath.Join(root, "components"), func(fi os.FileInfo) bool {
+		n := fi.Name()
+		return !strings.HasSuffix(n, "_test.go") && n != "export_verif.go"
+	}, 0); err == nil {
+		for _, pkg := range cp {
+			for _, f := range pkg.Files {
+				for _, d := range f.Decls {
+					if x, ok := d.(*ast.FuncDecl); ok && x.Body != nil {
+						name := x.Name.Name
+						if x.Recv != nil && len(x.Recv.List) > 0 {
+							name = strings.TrimPrefix(src(x.Recv.List[0].Type), "*") + "." + name
+						}
+						funcs["components."+name] = stmts(x.Body.List)
+					}
+				}
+			}
+		}
+	}
 	strLits := map[string][]string{} // function -> string literals passed to regexp compile calls
 	for _, pkg := range pkgs {
 		files := []string{}
